@@ -118,7 +118,7 @@ def gen_history(rng):
 
 def gen_vector_spec(rng, nodes):
     """A vector described relative to the current local vector (resolved at run time)."""
-    kind = rng.choice(['newer', 'newer', 'older', 'equal', 'incomparable', 'unknown-node', 'self-too-much', 'self-ok',
+    kind = rng.choice(['newer', 'newer', 'older', 'equal', 'incomparable', 'unknown-node', 'self-too-much', 'self-too-much-twice', 'self-ok',
                        'no-seq', 'no-id', 'undecodable', 'undecodable-inner', 'wrong-length', 'empty'])
     big = rng.random() < 0.12       # sequence numbers are 64-bit: some vectors jump across the 2**16 / 2**32 width boundaries
     return {'kind': kind, 'pick': [rng.random() for _ in range(6)], 'unknown': [rng.random() < 0.5 for _ in range(4)] if rng.random() < 0.2 else None,
@@ -155,6 +155,14 @@ def resolve_vector(spec, local, self_seq, nodes):
         ents = [(known[0], min(cur(known[0]) + 2, 2**64 - 1)), (SELF, min(self_seq + spec['delta'][0], 2**64 - 1))]
         if spec['pick'][0] < 0.5:
             ents.reverse()
+    elif kind == 'self-too-much-twice':
+        # the own node is listed twice, one entry claiming too much and one that does not (in either order), among entries worth merging
+        ents = [(SELF, min(self_seq + spec['delta'][0], 2**64 - 1)), (SELF, max(0, self_seq - (1 if spec['pick'][1] < 0.5 else 0))),
+                (known[0], min(cur(known[0]) + 2, 2**64 - 1)), ([C(b'n'), C(b'dup%d' % (spec['delta'][1] % 7))], 4)]
+        if spec['pick'][0] < 0.5:
+            ents[0], ents[1] = ents[1], ents[0]
+        if spec['pick'][2] < 0.4:
+            ents = ents[2:] + ents[:2]
     elif kind == 'self-ok':
         ents = [(SELF, max(0, self_seq - (spec['delta'][0] if spec['pick'][0] < 0.5 else 0))), (known[0], cur(known[0]) + 1)]
     elif kind == 'no-seq':
@@ -351,7 +359,7 @@ def execute(ctx, hist, rng):
                 kind = ev[1]['kind']
                 wellformed = {nid(n): s for n, s in ents if n is not None and s is not None and not isinstance(n, str)}
                 ignore = kind in ('undecodable', 'undecodable-inner', 'wrong-length', 'empty') or \
-                    (nid(SELF) in wellformed and wellformed[nid(SELF)] > self_seq)
+                    any(n is not None and s is not None and not isinstance(n, str) and nid(n) == nid(SELF) and s > self_seq for n, s in ents)
                 full = {k: max(model_local.get(k, 0), v) for k, v in wellformed.items()}
                 exp_full = dict(model_local)
                 exp_full.update(full)
@@ -365,7 +373,7 @@ def execute(ctx, hist, rng):
                         R['viol'].append(('local-vector-decreased', f'entry {k.hex()} went from {v} to {after_real.get(k)}', w))
                 nz = lambda d: {k: v for k, v in d.items() if v}   # noqa  (an entry with sequence number 0 == no entry)
                 if nz(after_real) not in [nz(a) for a in allowed]:
-                    mech = 'vector-claiming-too-much-not-ignored' if ignore and kind in ('self-too-much',) else \
+                    mech = 'vector-claiming-too-much-not-ignored' if ignore and kind in ('self-too-much', 'self-too-much-twice') else \
                         'ignored-vector-merged' if ignore else 'merge-not-entrywise-max'
                     if kind == 'no-seq':
                         mech = 'svs-malformed-entry-partial-merge'
@@ -544,7 +552,7 @@ def run(ctx):
     finally:
         svs_sync.secrets.randbits = orig
     for k in ('suppression-entered', 'vector-heard-during-suppression', 'suppression-expiry-needed', 'suppression-expiry-not-needed',
-              'periodic-expiry', 'publication', 'vector-newer', 'vector-self-too-much', 'vector-no-seq', 'outdated-vector-answered',
+              'periodic-expiry', 'publication', 'vector-newer', 'vector-self-too-much', 'vector-self-too-much-twice', 'vector-no-seq', 'outdated-vector-answered',
               'publication-next-to-reception', 'publication-before-start', 'instance-restarted', 'vector-with-unknown-elements-between-entries'):
         ctx.need_event(k)
     ctx.assumptions = ['when suppression is entered is read from the instance (not part of the statement)',
